@@ -514,6 +514,11 @@ func (m *ModuleInstance) resolveImports(ctx context.Context, module *Module) (er
 				expected := i.DescMem
 				importedMemory := importedModule.MemoryInstance
 
+				if expected.IsShared != importedMemory.Shared {
+					err = errorInvalidImport(i, fmt.Errorf("shared mismatch: %t != %t", expected.IsShared, importedMemory.Shared))
+					return
+				}
+
 				if expected.Min > memoryBytesNumToPages(uint64(len(importedMemory.Buffer))) {
 					err = errorMinSizeMismatch(i, expected.Min, importedMemory.Min)
 					return
